@@ -15,3 +15,30 @@ func VerifClientConns(c Client) (live int, max int) {
 	}
 	return int(cl.conns.Load().verifLive()), cl.options.ClientMaxConns
 }
+
+// VerifClientState is a snapshot of a client taken under the client's own mutex.
+type VerifClientState struct {
+	Connected, Disconnected, Closed bool
+	Listed, Live                    int
+	Connecting                      bool
+	Attempt                         int
+}
+
+// VerifClientSnapshot returns the state of a client under its mutex.
+func VerifClientSnapshot(c Client) (s VerifClientState, ok bool) {
+	cl, ok := c.(*client)
+	if !ok {
+		return s, false
+	}
+	cl.mu.Lock()
+	defer cl.mu.Unlock()
+	conns := cl.conns.Load()
+	s.Connected = cl.connected_.IsSet()
+	s.Disconnected = cl.disconnected_.IsSet()
+	s.Closed = cl.closed_.IsSet()
+	s.Listed = conns.len()
+	s.Live = int(conns.verifLive())
+	s.Connecting = cl.connecting.Valid
+	s.Attempt = cl.connectAttempt
+	return s, true
+}
